@@ -79,8 +79,9 @@ func NewSqlite(path string, cfg *SqliteConfig) (*Sqlite, error) {
 	// moments, but less often than in FULL mode. WAL mode is safe from corruption with
 	// synchronous=NORMAL.
 	connParams.Add("_pragma", "synchronous(NORMAL)")
-	// Enforce foreign key constraints.
-	connParams.Add("_pragma", "foreign_keys(1)")
+	// Enforce foreign key constraints. The driver in use (mattn/go-sqlite3) only
+	// understands its own parameter names; "_pragma" is silently ignored.
+	connParams.Add("_foreign_keys", "1")
 	// Use shared cache for in-memory databases to allow multiple connections.
 	if c.InMemory {
 		registerMemoryDB(noFile)
